@@ -15,6 +15,8 @@ import types
 from typing import Any
 
 import cascade.controller.impl as impl
+import cascade.controller.report as REPORT
+import cascade.executor.serde as SERDE
 import cascade.executor.runner.entrypoint as EP
 import cascade.executor.runner.memory as MEM
 import cascade.scheduler.api as API
@@ -292,6 +294,9 @@ class SimBridge:
         self.shutdown_called = False
         self.failures: list[str] = []
         self.max_exec_steps, self.max_batch = max_exec_steps, max_batch
+        self.reports: list = []              # ControllerReports the real Reporter pushed towards the gateway
+        self.rep_seen = 0
+        self.payload_fn: dict = {}           # dataset -> deser_fun of the payload handed to the controller
         self.chooser = None                  # exhaustive mode: an object with choose(n) -> index (see record_all_orders)
         self.starve: frozenset = frozenset()  # adversarial mode: step kinds taken only when nothing else can happen
 
@@ -460,6 +465,7 @@ class SimBridge:
             n -= 1
             if isinstance(c, tuple):
                 ds, src, v, fn = self.payloads.pop(c[1])
+                self.payload_fn[ds] = fn
                 out.append(DatasetTransmitPayload(DatasetTransmitPayloadHeader("x", 0, ds, fn), v))
                 self.rec.log("recvpayload", d=D(ds), src=src)
             else:
@@ -468,6 +474,49 @@ class SimBridge:
                 self.rec.log("recvevent", h=c, d=D(e.ds), w=repr(e.origin) if isinstance(e.origin, WorkerId) else "host",
                              x=e.transmit_idx is not None)
         return out
+
+
+class _ReportSocket:
+    """Stands for the PUSH socket of cascade.controller.report.Reporter: keeps what the controller reports to the gateway."""
+
+    def __init__(self, sink):
+        self.sink = sink
+
+    def connect(self, address):
+        pass
+
+    def send(self, raw):
+        self.sink.append(REPORT.deserialize(raw))
+
+
+REPORT_JOB_ID = "job-under-test"
+
+
+def _new_reports(b, expected: dict) -> list[dict]:
+    """What the real Reporter sent since the last look, projected: progress in basis points, results judged against the
+    sequential value (decoded as controller.notify decodes the same bytes)."""
+    out = []
+    for r in b.reports[b.rep_seen:]:
+        idx = b.reports.index(r)
+        meta_ok = r.job_id == REPORT_JOB_ID and (idx == 0 or b.reports[idx - 1].timestamp <= r.timestamp)
+        if r.results:
+            for ds, raw in r.results:
+                try:
+                    ok = (ds.task, ds.output) in expected and \
+                        SERDE.des_output(raw, "Any", b.payload_fn.get(ds)) == expected[(ds.task, ds.output)]
+                except Exception:
+                    ok = False
+                out.append({"k": "result", "d": D(ds), "ok": bool(ok), "bp": 0, "meta": meta_ok and r.current_status is None})
+        elif r.current_status == REPORT.JobProgressShutdown:
+            out.append({"k": "shutdown", "d": ["", ""], "ok": True, "bp": 0, "meta": meta_ok})
+        else:
+            try:
+                bp = int(round(float(r.current_status) * 100))
+            except Exception:
+                bp = -1
+            out.append({"k": "progress", "d": ["", ""], "ok": True, "bp": bp, "meta": meta_ok})
+    b.rep_seen = len(b.reports)
+    return out
 
 
 def _recv_one_chosen(self):
@@ -485,6 +534,7 @@ def _recv_one_chosen(self):
     kind, a = opts[self.chooser.choose(len(opts))]
     if kind == "p":
         ds, src, v, fn = self.payloads.pop(a)
+        self.payload_fn[ds] = fn
         self.rec.log("recvpayload", d=D(ds), src=src)
         return [DatasetTransmitPayload(DatasetTransmitPayloadHeader("x", 0, ds, fn), v)]
     e = self.events[a].pop(0)
@@ -609,23 +659,25 @@ def record(inst: Instance, job: JobInstance, env: Environment, pre, seed: int, e
     def notify(state, job_, events, reporter):
         r = o_notify(state, job_, events, reporter)
         rec.last = {}      # full projection: the spec moved ahead of the last projection during recvevent/recvpayload
-        rec.log("endwait", state)
+        rec.log("endwait", state, reports=_new_reports(b, expected))
         return r
 
     impl.act, impl.plan, impl.flush_queues, impl.notify = act, plan, flush, notify
     ASSIGN.build_assignment, API.migrate_to_component = ba, mig
     old_mem_cb, old_ep_cb, old_shm = MEM.callback, EP.callback, MEM.shm_client
+    old_ctx = REPORT.get_context
+    REPORT.get_context = lambda: types.SimpleNamespace(socket=lambda kind: _ReportSocket(b.reports))
     old = signal.signal(signal.SIGALRM, _alarm)
     state = None
     try:
         signal.alarm(budget_s)
         try:
-            state = impl.run(job, b, pre)
+            state = impl.run(job, b, pre, report_address="tcp://gateway:0," + REPORT_JOB_ID)
             outs = {(ds.task, ds.output): v for ds, v in state.outputs.items()}
             wrong = sorted([list(k) for k, v in outs.items() if k not in expected or v != expected[k]])
             missing = sorted([list(k) for k in map(tuple, inst.ext) if k not in outs])
             rec.log("done", wrong=wrong, missing=missing, shutdown=b.shutdown_called,
-                    remaining=state.remaining, failures=b.failures[:3])
+                    remaining=state.remaining, failures=b.failures[:3], reports=_new_reports(b, expected))
         except (Spin, Deadlock, TaskFailed, DataServerFailure) as e:
             if not any(ev["ev"] in ("spin", "deadlock", "taskfailure") for ev in rec.ev[-3:]):
                 rec.log("abort", what=type(e).__name__ + ":" + str(e)[:200])
@@ -641,4 +693,5 @@ def record(inst: Instance, job: JobInstance, env: Environment, pre, seed: int, e
         impl.act, impl.plan, impl.flush_queues, impl.notify = o_act, o_plan, o_flush, o_notify
         ASSIGN.build_assignment, API.migrate_to_component = o_ba, o_mig
         MEM.callback, EP.callback, MEM.shm_client = old_mem_cb, old_ep_cb, old_shm
+        REPORT.get_context = old_ctx
     return rec.ev
